@@ -6,6 +6,8 @@ import Pk.Proofs.MgrTruthEdit
 import Pk.Proofs.MgrTruthJob
 import Pk.Proofs.MgrTruthMasks
 import Pk.Proofs.MgrTruthVia
+import Pk.Proofs.MgrTruthOrigin
+import Pk.Proofs.MgrTruthInv
 namespace Pk.Props.C06Reach
 open Pk.Mgr Pk.Props.MgrReach Pk.Proofs.MgrTruth Pk.Proofs.MgrTags
 
@@ -146,7 +148,7 @@ theorem pend_mono (s : St) (e : Ev) (st : Started) (hr : Reach s) (hne : ∀ n r
       have hn : name = r := hE
       subst hn
       obtain ⟨t0, t', _, h', _, _, _, _, _, hall⟩ := updQuery_ok s name defn f st (res_ok_updQuery s name defn f st herr)
-      exact ⟨t', h', hall id (hr.uncBounded name t ht id hid)⟩
+      exact ⟨t', h', hall.1 id (hr.uncBounded name t ht id hid)⟩
     | updName name new =>
       rcases updName_ok s name new st (res_ok_updName s name new st herr) with h1 | ⟨t0, h0, hrb0, hnew, _, _⟩
       · rw [h1]; exact ⟨t, ht, hid⟩
@@ -243,51 +245,69 @@ theorem job_cover {s s' : St} {snap ot : Tag} {jn : String} {B : String → Nat 
 
 /-! ## the job invariant through an event that is not the completion -/
 
-/-- the job in flight survives an event that is not its completion: the invariant is kept if the tag of
-    the job keeps its attributes while it carries the snapshot's text, new streams are recorded in `add`,
-    and every change of the truth of the job's tag is covered afterwards -/
+/-- the job in flight survives an event that is not its completion: the invariant is kept if new streams
+    are recorded in `add` and every entry of the new table that carries the identity and the text of the
+    snapshot either has everything covered or comes from such an entry of the old table (`n`, possibly
+    another name: rename) with the same attributes, every change of truth between the two being covered -/
 theorem jobInv_mono (s : St) (e : Ev) (st : Started) (T T' g : Truth) (hr : Reach s) (hjob : JobInv s T g)
     (hne : ∀ n r, e ≠ .tagDone n r)
     (jn : String) (snap : Tag) (held : List Nat) (hj : s.jTag = some (jn, snap, held))
     (hnx : ∀ id, s.next ≤ id → id < (step s e st).1.next → id ∈ (step s e st).1.add)
-    (h1 : ∀ ot', sget (step s e st).1.tags jn = some ot' → ot'.defn = snap.defn →
-        ∃ ot, sget s.tags jn = some ot ∧ ot.defn = snap.defn ∧ ot'.mfeat = ot.mfeat ∧ ot'.sfeat = ot.sfeat)
-    (h2 : ∀ ot, sget s.tags jn = some ot → ot.defn = snap.defn → ot.mfeat = snap.mfeat → ot.sfeat = snap.sfeat →
-        Live (step s e st).1 jn snap → ∀ id, id < s.next → T' jn id ≠ T jn id → Cov (step s e st).1 snap id) :
+    (hpre : ∀ n' ot', sget (step s e st).1.tags n' = some ot' → ot'.gen = snap.gen → ot'.defn = snap.defn →
+        (∀ id, id < (step s e st).1.next → CovM (step s e st).1 snap id) ∨
+        ∃ n ot, sget s.tags n = some ot ∧ ot.gen = snap.gen ∧ ot.defn = snap.defn ∧ Attrs ot' = Attrs ot ∧
+          (Attrs ot = Attrs snap → ∀ id, id < s.next → T' n' id ≠ T n id → Cov (step s e st).1 snap id)) :
     JobInv (step s e st).1 T' g := by
   have htag : s.tag = true := hr.jobsWF.1.2 (by rw [hj]; rfl)
   obtain ⟨hj', _, hu, hrs, ha⟩ := job_stable s e st (jn, snap, held) hj htag hne
-  intro jn2 snap2 held2 ot' hj2 hot' hd'
+  intro jn2 snap2 held2 n' ot' hj2 hot' hg' hd'
   rw [hj'] at hj2
   cases hj2
-  obtain ⟨ot, hot, hd, hf1, hf2⟩ := h1 ot' hot' hd'
-  have hrefs := hr.factsOK.1 jn snap held ot hj hot hd
-  rcases hjob jn snap held ot hj hot hd with hall | ⟨e1, e2, hcov⟩
+  rcases hpre n' ot' hot' hg' hd' with hall | ⟨n, ot, hot, hg, hd, hat, h2⟩
+  · exact Or.inl hall
+  rcases hjob jn snap held n ot hj hot hg hd with hall | ⟨e1, hcov⟩
   · left
     intro id hid
     rcases Nat.lt_or_ge id s.next with hlt | hge
     · exact covM_mono hu hrs ha (hall id hlt)
     · exact Or.inl (hnx id hge hid)
   · right
-    refine ⟨hf1.trans e1, hf2.trans e2, ?_⟩
+    refine ⟨hat.trans e1, ?_⟩
     intro id hid hne'
     rcases Nat.lt_or_ge id s.next with hlt | hge
-    · by_cases hT : T' jn id = T jn id
+    · by_cases hT : T' n' id = T n id
       · rw [hT] at hne'
         refine cov_mono hu hrs ha ?_ (hcov id hlt hne')
         intro r hr' id' hp
-        refine pend_mono s e st hr hne r id' ⟨(jn, ot), sget_mem' hot, ?_⟩ hp
-        simp only [mem_refs, hrefs.1, hrefs.2]
+        refine pend_mono s e st hr hne r id' ⟨(n, ot), sget_mem' hot, ?_⟩ hp
+        obtain ⟨a1, a2, _⟩ := attrs_eq e1
+        simp only [mem_refs, a1, a2]
         exact hr'
-      · exact h2 ot hot hd e1 e2 ⟨ot', hot', hd'⟩ id hlt hT
+      · exact h2 e1 id hlt hT
     · exact Or.inl (Or.inl (hnx id hge hid))
+
+/-- an entry of the new table that the event does not edit comes from the entry of the same name -/
+theorem pre_of_not_edits (s : St) (e : Ev) (st : Started) (n' : String) (snap ot' : Tag)
+    (hn : ¬ C06.Edits e n') (hot' : sget (step s e st).1.tags n' = some ot') (hg' : ot'.gen = snap.gen)
+    (hd' : ot'.defn = snap.defn) :
+    ∃ ot, sget s.tags n' = some ot ∧ ot.gen = snap.gen ∧ ot.defn = snap.defn ∧ Attrs ot' = Attrs ot := by
+  have hk := keep_step s e st n' hn
+  cases hs : sget s.tags n' with
+  | none => rw [hk.2 hs] at hot'; cases hot'
+  | some ot =>
+    obtain ⟨t2, h2, hrel⟩ := hk.1 ot hs
+    rw [hot'] at h2; cases h2
+    obtain ⟨t3, h3, ha⟩ := attrs_get (step_attrs s e st n' (fun h => hn ((edits_iff e n').2 h))) hs
+    rw [hot'] at h3; cases h3
+    exact ⟨ot, rfl, by rw [← (attrs_eq ha).2.2.2.2]; exact hg', by rw [← hrel.2.1]; exact hd', ha⟩
 
 /-- a job that was started at the end of this event satisfies the invariant with the ghost set to the
     truth after the event -/
 theorem jobInv_fresh (s : St) (e : Ev) (st : Started) (T' : Truth) (hr : Reach s) (hev : C09.EvOK s e)
+    (hgen' : GenInv (step s e st).1)
     (h : s.jTag = none ∨ ∃ n r, e = .tagDone n r) (hinv' : C06.Inv (step s e st).1 T') :
     JobInv (step s e st).1 T' T' := by
-  intro jn snap held ot' hj' hot' _
+  intro jn snap held n ot' hj' hot' hg' _
   have h0 : s.tag = false ∨ ∃ n r, e = .tagDone n r := by
     rcases h with h | h
     · left
@@ -299,11 +319,13 @@ theorem jobInv_fresh (s : St) (e : Ev) (st : Started) (T' : Truth) (hr : Reach s
     intro n r he jn' snap' held' hj
     subst he
     exact hev jn' snap' held' hj
-  obtain ⟨ot, hot, hm, hu, _, hf1, hf2, _, _, _⟩ :=
+  obtain ⟨ot, hot, hm, hu, _, hf1, hf2, hf3, hf4, _, _, _, hf5⟩ :=
     job_started s e st jn snap held hr.tagsWF hr.jobsWF.1 hev' h0 hj'
+  have hn : n = jn := hgen'.2.2 n ot' jn ot hot' hot (by rw [hg', hf5])
+  subst hn
   rw [hot'] at hot; cases hot
   right
-  refine ⟨hf1, hf2, ?_⟩
+  refine ⟨attrs_mk hf3 hf4 hf1 hf2 hf5, ?_⟩
   intro id hid hne
   exfalso
   apply hne
@@ -311,11 +333,11 @@ theorem jobInv_fresh (s : St) (e : Ev) (st : Started) (T' : Truth) (hr : Reach s
   split
   · rfl
   · rename_i hnu
-    have := hinv' jn ot' hot' id hid (by rw [hu]; exact hnu)
+    have := hinv' n ot' hot' id hid (by rw [hu]; exact hnu)
     rw [hm] at this
     by_cases hmem : id ∈ snap.mat
     · simp [hmem, this.1 hmem]
-    · cases hT : T' jn id with
+    · cases hT : T' n id with
       | false => simp [hmem]
       | true => exact absurd (this.2 hT) hmem
 
@@ -335,31 +357,10 @@ open Pk.Proofs.MgrTermination in
 theorem fq_of_attrs {L L' : List (String × Tag)}
     (h : ∀ n, (sget L' n).map Attrs = (sget L n).map Attrs) : FQ L L' := by
   intro n
-  have := congrArg (Option.map (fun a : List String × List String × Nat × Nat => (a.1, a.2.1))) (h n)
+  have := congrArg (Option.map (fun a : List String × List String × Nat × Nat × Nat => (a.1, a.2.1))) (h n)
   have e : Pk.Proofs.MgrReach.F2 = fun x : Tag => (x.mainT, x.subT) := rfl
   rw [e]
   simpa [Option.map_map, Function.comp_def, Attrs] using this
-
-theorem attrs_get {L L' : List (String × Tag)} {n : String} {t : Tag}
-    (h : (sget L' n).map Attrs = (sget L n).map Attrs) (ht : sget L n = some t) :
-    ∃ t', sget L' n = some t' ∧ Attrs t' = Attrs t := by
-  rw [ht] at h
-  cases h' : sget L' n with
-  | none => rw [h'] at h; cases h
-  | some t' => rw [h'] at h; exact ⟨t', rfl, by simpa using h⟩
-
-theorem attrs_get' {L L' : List (String × Tag)} {n : String} {t' : Tag}
-    (h : (sget L' n).map Attrs = (sget L n).map Attrs) (ht : sget L' n = some t') :
-    ∃ t, sget L n = some t ∧ Attrs t' = Attrs t := by
-  rw [ht] at h
-  cases h' : sget L n with
-  | none => rw [h'] at h; cases h
-  | some t => rw [h'] at h; exact ⟨t, rfl, by simpa using h⟩
-
-theorem attrs_eq {t t' : Tag} (h : Attrs t' = Attrs t) :
-    t'.mainT = t.mainT ∧ t'.subT = t.subT ∧ t'.mfeat = t.mfeat ∧ t'.sfeat = t.sfeat := by
-  simp only [Attrs, Prod.mk.injEq] at h
-  exact h
 
 /-- everything in the closure of a base that is pending before the sweep is pending after it -/
 theorem sweep_pending (tags0 : List (String × Tag)) (s1 : St) (hsort : Sorted s1.tags)
@@ -373,7 +374,7 @@ theorem sweep_pending (tags0 : List (String × Tag)) (s1 : St) (hsort : Sorted s
   intro n t0 h0
   obtain ⟨t1, h1, hc⟩ := hex n t0 h0
   obtain ⟨t', h', ha⟩ := attrs_get (inherit_akeep s1 n) h1
-  obtain ⟨e1, e2, _, _⟩ := attrs_eq ha
+  obtain ⟨e1, e2, _⟩ := attrs_eq ha
   refine ⟨t', h', ?_⟩
   rcases hc with hc | hc
   · left
